@@ -198,7 +198,7 @@ func restartCases() []runner.Case {
 	var cs []runner.Case
 	for _, native := range []bool{true, false} {
 		for _, emptied := range []bool{false, true} {
-			for _, wa := range []string{"before-start", "startup.listed", "startup.before_first_send", "loop.top", "load.before_txn"} {
+			for _, wa := range []string{"before-start", "startup.listed", "startup.before_first_send", "loop.top", "load.before_txn", "load.after_txn", "load.done", "loop.before_info", "send.before_txn"} {
 				for _, gate := range []int{0, 3} {
 					sc := RestartScn{Native: native, CrashPoint: "loop.end", CrashNth: 1, Emptied: emptied, GateIters: gate, WriteAt: wa, CheckWrites: true}
 					cs = append(cs, runner.MkCase("restart", sc.ID(), sc))
